@@ -16,7 +16,8 @@ CONSTANTS G,           \* grammar: "G12" (NV variables), "G3s"/"G3v"/"G1x" three
 AllLeaves == CASE G = "G12" -> (IF NV = 1 THEN LeavesG1 ELSE LeavesG2(NV))
                \* constant conditions (no variable at all) combined with ordinary ones
                [] G = "G1k" -> << InC(LitI(1), LitL(<<0, 1>>), "in_"), InC(LitI(2), LitL(<<0, 1>>), "contains"),
-                                  InC(LitI(0), LitL(<<0, 1>>), "contains") >> \o Some(CoreLeaves(V(1)), 6)
+                                  InC(LitI(0), LitL(<<0, 1>>), "contains"), PredC("p_pos", <<LitI(1)>>, "fn"),
+                                  PredC("p_lt", <<LitI(2), LitI(1)>>, "fn") >> \o Some(CoreLeaves(V(1)), 6)
                [] G = "G1s" -> LeavesG1                    \* one variable, an expression on it selected instead of it
                [] G = "G4"  -> LeavesG2(2)
                \* a small vocabulary that mixes the pairs of three variables (partial bindings meet in and_/or_ trees)
